@@ -24,6 +24,7 @@ import (
 	"go.uber.org/zap"
 
 	"github.com/mimiro-io/datahub/internal/conf"
+	"github.com/mimiro-io/datahub/internal/verifhook"
 )
 
 type VerifC13Ent struct {
@@ -43,6 +44,9 @@ type VerifC13Op struct {
 	Ds     string            `json:"ds"`
 	Ents   []VerifC13Ent     `json:"ents"`
 	Crash  bool              `json:"crash"`
+	// write ops only: the process dies at this hook point of the write (0 before the id commit, 1 between the
+	// two commits, 2 after both commits), if the write gets that far; nil = no crash
+	CrashPt *int `json:"crashpt,omitempty"`
 }
 
 type VerifC13Conc struct {
@@ -71,7 +75,9 @@ type VerifC13Out struct {
 	E2P [][2]string `json:"e2p,omitempty"`
 	U2I []verifUI   `json:"u2i,omitempty"`
 	I2U []verifUI   `json:"i2u,omitempty"`
-	Msg string      `json:"msg,omitempty"`
+	// (identifier, internal id) pairs carried by stored entity versions (entity id) and their reference keys
+	Stored []verifUI `json:"stored,omitempty"`
+	Msg    string    `json:"msg,omitempty"`
 }
 
 type verifUI struct {
@@ -128,8 +134,69 @@ func verifC13Dump(s *Store) VerifC13Out {
 		}
 		return nil
 	})
+	o.Stored = verifC13Stored(s)
 	return o
 }
+
+// verifC13Stored scans every stored entity version: the internal id in its key belongs to the identifier in
+// its JSON; the predicate / target ids of its outgoing reference key belong to its (single) reference.
+func verifC13Stored(s *Store) []verifUI {
+	seen := map[verifUI]bool{}
+	_ = s.database.View(func(txn *badger.Txn) error {
+		p := make([]byte, 2)
+		binary.BigEndian.PutUint16(p, EntityIDToJSONIndexID)
+		it := txn.NewIterator(badger.DefaultIteratorOptions)
+		defer it.Close()
+		for it.Seek(p); it.ValidForPrefix(p); it.Next() {
+			k := it.Item().KeyCopy(nil)
+			if len(k) < 24 {
+				continue
+			}
+			v, _ := it.Item().ValueCopy(nil)
+			e := &Entity{}
+			if err := json.Unmarshal(v, e); err != nil {
+				continue
+			}
+			rid := binary.BigEndian.Uint64(k[2:10])
+			seen[verifUI{e.ID, rid}] = true
+			if len(e.References) != 1 || e.IsDeleted {
+				continue
+			}
+			op := make([]byte, 18)
+			binary.BigEndian.PutUint16(op, OutgoingRefIndex)
+			copy(op[2:10], k[2:10])
+			copy(op[10:18], k[14:22])
+			it2 := txn.NewIterator(badger.DefaultIteratorOptions)
+			for it2.Seek(op); it2.ValidForPrefix(op); it2.Next() {
+				ok := it2.Item().KeyCopy(nil)
+				if len(ok) < 40 || !bytes.Equal(ok[36:40], k[10:14]) || binary.BigEndian.Uint16(ok[34:36]) != 0 {
+					continue
+				}
+				for pred, tgt := range e.References {
+					if t, isStr := tgt.(string); isStr {
+						seen[verifUI{pred, binary.BigEndian.Uint64(ok[18:26])}] = true
+						seen[verifUI{t, binary.BigEndian.Uint64(ok[26:34])}] = true
+					}
+				}
+			}
+			it2.Close()
+		}
+		return nil
+	})
+	out := make([]verifUI, 0, len(seen))
+	for x := range seen {
+		out = append(out, x)
+	}
+	sort.Slice(out, func(i, j int) bool {
+		if out[i].I != out[j].I {
+			return out[i].I < out[j].I
+		}
+		return out[i].U < out[j].U
+	})
+	return out
+}
+
+type verifC13Died struct{}
 
 func verifC13Ents(es []VerifC13Ent, pad *int) []*Entity {
 	out := make([]*Entity, 0, len(es))
@@ -150,8 +217,12 @@ func verifC13Write(f func() error, ents []*Entity) VerifC13Out {
 	func() {
 		defer func() {
 			if r := recover(); r != nil {
-				o.Oc = "panic"
-				o.Msg = fmt.Sprint(r)
+				if _, died := r.(verifC13Died); died {
+					o.Oc = "crashed"
+				} else {
+					o.Oc = "panic"
+					o.Msg = fmt.Sprint(r)
+				}
 			}
 		}()
 		err := f()
@@ -199,6 +270,62 @@ func VerifC13Run(c VerifC13Case, dir string) (obs VerifC13Obs) {
 	var ctxStores []*Store
 	pad := 0
 	ncrash := 0
+	// a write during which the process dies at a hook point: the directory image taken at that point is what
+	// the next process opens; the dying process is unwound with a panic and abandoned
+	crashImage := ""
+	crashErr := ""
+	armCrash := func(op VerifC13Op, txnPath bool) {
+		if op.CrashPt == nil {
+			return
+		}
+		names := []string{"batch.beforeIdCommit", "batch.afterIdCommit", "batch.afterCommit"}
+		arg := op.Ds
+		if txnPath {
+			names = []string{"txn.beforeIdCommit", "txn.afterIdCommit", "txn.afterCommit"}
+			arg = ""
+		}
+		pt := *op.CrashPt
+		if pt > 2 {
+			pt = 2
+		}
+		want := names[pt]
+		fired := false
+		verifhook.SetHandler(func(name, a string) {
+			if fired || name != want || a != arg {
+				return
+			}
+			fired = true
+			ncrash++
+			next := fmt.Sprintf("%s.crash%d", dir, ncrash)
+			_ = os.RemoveAll(next)
+			if err := verifC13CopyDir(cur, next); err != nil {
+				crashErr = "copy: " + err.Error()
+				return
+			}
+			crashImage = next
+			panic(verifC13Died{})
+		})
+	}
+	afterCrash := func(o *VerifC13Out) string {
+		verifhook.SetHandler(nil)
+		if crashErr != "" {
+			return crashErr
+		}
+		if crashImage == "" {
+			return ""
+		}
+		if o.Oc != "crashed" {
+			return "crash image taken but the write did not die: " + o.Oc
+		}
+		_ = s.Close()
+		_ = os.RemoveAll(cur)
+		cur = crashImage
+		crashImage = ""
+		s, dsm = verifC13Open(cur)
+		verifC13Settle(cur)
+		ctxStores = nil
+		return ""
+	}
 	for _, op := range c.Ops {
 		pad += 64
 		var o VerifC13Out
@@ -236,6 +363,7 @@ func VerifC13Run(c VerifC13Case, dir string) (obs VerifC13Obs) {
 			}
 		case "batch":
 			ents := verifC13Ents(op.Ents, &pad)
+			armCrash(op, op.Txn)
 			if op.Txn {
 				o = verifC13Write(func() error {
 					return s.ExecuteTransaction(&Transaction{DatasetEntities: map[string][]*Entity{op.Ds: ents}})
@@ -244,6 +372,9 @@ func VerifC13Run(c VerifC13Case, dir string) (obs VerifC13Obs) {
 				ds := dsm.GetDataset(op.Ds)
 				o = verifC13Write(func() error { return ds.StoreEntities(ents) }, ents)
 			}
+			if msg := afterCrash(&o); msg != "" {
+				return VerifC13Obs{Outcome: "setup-error", Detail: msg}
+			}
 		case "ctxnew":
 			ctxStores = append(ctxStores, NewContextualStore(s))
 			o = VerifC13Out{K: "unit"}
@@ -251,9 +382,13 @@ func VerifC13Run(c VerifC13Case, dir string) (obs VerifC13Obs) {
 			ents := verifC13Ents(op.Ents, &pad)
 			if op.K < len(ctxStores) {
 				cs := ctxStores[op.K]
+				armCrash(op, true)
 				o = verifC13Write(func() error {
 					return cs.ExecuteTransaction(&Transaction{DatasetEntities: map[string][]*Entity{op.Ds: ents}})
 				}, ents)
+				if msg := afterCrash(&o); msg != "" {
+					return VerifC13Obs{Outcome: "setup-error", Detail: msg}
+				}
 			} else {
 				o = VerifC13Out{K: "err"}
 			}
@@ -276,15 +411,7 @@ func VerifC13Run(c VerifC13Case, dir string) (obs VerifC13Obs) {
 			}
 			s, dsm = verifC13Open(cur)
 			if op.Crash {
-				// badger replays the copied memtable log and flushes it in the background; let that finish so
-				// that crash images taken later do not accumulate replay work (harness cost only)
-				for i := 0; i < 400; i++ {
-					ms, _ := filepath.Glob(filepath.Join(cur, "*.mem"))
-					if len(ms) <= 1 {
-						break
-					}
-					time.Sleep(5 * time.Millisecond)
-				}
+				verifC13Settle(cur)
 			}
 			ctxStores = nil
 			o = VerifC13Out{K: "unit"}
@@ -297,6 +424,18 @@ func VerifC13Run(c VerifC13Case, dir string) (obs VerifC13Obs) {
 	}
 	obs.Outcome = "ok"
 	return obs
+}
+
+// badger replays the copied memtable log and flushes it in the background; let that finish so that crash
+// images taken later do not accumulate replay work (harness cost only)
+func verifC13Settle(dir string) {
+	for i := 0; i < 400; i++ {
+		ms, _ := filepath.Glob(filepath.Join(dir, "*.mem"))
+		if len(ms) <= 1 {
+			return
+		}
+		time.Sleep(5 * time.Millisecond)
+	}
 }
 
 // verifC13CopyDir copies the (flat) store directory, skipping the holes of badger's preallocated files.
